@@ -28,7 +28,7 @@ use std::fmt::Debug;
 use crate::c18::{gen_graph_spec, shrink_graph_spec, GraphSpec};
 use crate::with_k;
 
-pub const KTYPES: [&str; 7] = ["Kmer4", "Kmer6", "Kmer8", "Kmer16", "KmerK31", "Kmer32", "Kmer48"];
+pub const KTYPES: [&str; 12] = ["Kmer4", "Kmer5", "Kmer6", "Kmer8", "Kmer12", "Kmer16", "Kmer20", "KmerK31", "Kmer32", "Kmer40", "Kmer48", "Kmer64"];
 
 fn build<K: Kmer + Send + Sync>(g: &GraphSpec, parallel: bool) -> DebruijnGraph<K, u16> {
     let b = base_graph_for::<K>(g);
@@ -371,8 +371,8 @@ impl Harness for SerdeCheck {
                     _ => rt::<Lmer3>(b, c, rec),
                 }
             }
-            Val::BaseGraph(g) => with_k!(g.ktype.as_str(), [Kmer4, Kmer6, Kmer8, Kmer16, KmerK31, Kmer32, Kmer48], basegraph_rt, (g, c, rec)),
-            Val::Graph(g, par) => with_k!(g.ktype.as_str(), [Kmer4, Kmer6, Kmer8, Kmer16, KmerK31, Kmer32, Kmer48], graph_rt, (g, *par, c, rec)),
+            Val::BaseGraph(g) => with_k!(g.ktype.as_str(), [Kmer4, Kmer5, Kmer6, Kmer8, Kmer12, Kmer16, Kmer20, KmerK31, Kmer32, Kmer40, Kmer48, Kmer64], basegraph_rt, (g, c, rec)),
+            Val::Graph(g, par) => with_k!(g.ktype.as_str(), [Kmer4, Kmer5, Kmer6, Kmer8, Kmer12, Kmer16, Kmer20, KmerK31, Kmer32, Kmer40, Kmer48, Kmer64], graph_rt, (g, *par, c, rec)),
         }
     }
     fn shrink(&self, c: &SerdeCase) -> Vec<SerdeCase> {
@@ -946,7 +946,7 @@ pub fn file_child(spec: &str) -> i32 {
         }
         0
     }
-    with_k!(graph.ktype.as_str(), [Kmer4, Kmer6, Kmer8, Kmer16, KmerK31, Kmer32, Kmer48], go, (&graph, parallel, tags, limit, &path))
+    with_k!(graph.ktype.as_str(), [Kmer4, Kmer5, Kmer6, Kmer8, Kmer12, Kmer16, Kmer20, KmerK31, Kmer32, Kmer40, Kmer48, Kmer64], go, (&graph, parallel, tags, limit, &path))
 }
 
 impl Harness for ExportCheck {
@@ -1002,7 +1002,7 @@ impl Harness for ExportCheck {
         }
     }
     fn run(&self, c: &ExportCase, rec: &mut Rec) -> Result<(), Violation> {
-        with_k!(c.graph.ktype.as_str(), [Kmer4, Kmer6, Kmer8, Kmer16, KmerK31, Kmer32, Kmer48], run_export, (c, rec))
+        with_k!(c.graph.ktype.as_str(), [Kmer4, Kmer5, Kmer6, Kmer8, Kmer12, Kmer16, Kmer20, KmerK31, Kmer32, Kmer40, Kmer48, Kmer64], run_export, (c, rec))
     }
     fn shrink(&self, c: &ExportCase) -> Vec<ExportCase> {
         let mut out = Vec::new();
